@@ -69,6 +69,10 @@ Definition dFault : dec fault :=
   match k with
   | 1 => if a <=? 0 then fail else ret (FCreate (Z.to_pos a) b)
   | 2 => if a <=? 0 then fail else ret (FDelete (Z.to_pos a) b)
+  (* the pod DELETE refused with an explicit error class (21 Timeout, 22 ServerTimeout, 23 TooManyRequests,
+     24 Conflict, 25 InternalError), not applied on the server: deleteJobPod treats every error other than
+     NotFound alike, so the model does too *)
+  | 21 | 22 | 23 | 24 | 25 => if a <=? 0 then fail else ret (FDelete (Z.to_pos a) b)
   | 3 => if a <=? 0 then fail else ret (FPatch (Z.to_pos a) b)
   | 4 => ret (FStatus a)
   | 5 | 6 => ret (FPgWrite k)
